@@ -126,7 +126,10 @@ type Fn struct {
 	Call       func(form int, a []interface{}) []interface{}
 	MkCb       func(rec *Rec) interface{}
 	MkOriginCb func(rec *Rec) interface{}
-	Leaf       int // k+1 for leaf function k (no counter, reference = fn.LeafRef), 0 otherwise
+	// MkOriginLocal: the same, bound to a fresh placeholder VARIABLE (a copy of the placeholder's
+	// func value) that only the callback references; returns (callback, pointer for Origin())
+	MkOriginLocal func(rec *Rec) (interface{}, interface{})
+	Leaf          int // k+1 for leaf function k (no counter, reference = fn.LeafRef), 0 otherwise
 }
 
 // Funcs is the registry, in global index order.
